@@ -6,7 +6,11 @@ the validator with the MAC-bound (sender, nonce) - and emit the table as Go into
 internal/cluster/security (package security) plus a constructor copy into internal/cluster
 (package cluster). Any shape it does not recognise -> exit != 0 -> vcheck exit 2 (fail closed).
 
-usage: c26_pairs.py <repo> <outdir>      prints: OVERLAY <repo-relative-dst> <abs-src>
+usage: c26_pairs.py [--wiring-only] <repo> <outdir>      prints: OVERLAY <repo-relative-dst> <abs-src>
+
+--wiring-only (handler-level parts, which execute the real receive paths): only the construction
+sites and tolerance arguments are extracted; the validate->Track sequencing is not asserted because
+the handlers themselves are run.
 """
 import glob
 import os
@@ -116,6 +120,26 @@ def enclosing_func_ok(src, a, b, where):
         die("%s: validator and replay-tracking call are not in the same function" % where)
 
 
+STRICT = True
+
+
+def check_track(src, call, st, end, a, where):
+    """The replay-tracking call must follow the validator in the same function, be keyed by the
+    MAC-bound (sender=a[2], nonce=a[1]) and its false result must be a rejection. Skipped with
+    --wiring-only (parts that execute the real handler do not rely on this assertion)."""
+    if not STRICT:
+        return
+    tr = [c for c in find_calls(src, call) if c[0] > end]
+    if not tr:
+        die("%s: no %s( after the validator" % (where, call))
+    tst, targs, _ = tr[0]
+    enclosing_func_ok(src, st, tst, where)
+    if len(targs) != 2 or norm(targs[0]) != norm(a[2]) or norm(targs[1]) != norm(a[1]):
+        die("%s: Track(%s) is not keyed by the MAC-bound (sender=%s, nonce=%s)" % (where, ", ".join(targs), a[2], a[1]))
+    if not re.search(r"!\s*" + re.escape(call) + r"\(", src[tst - 4:tst + len(call) + 2]):
+        die("%s: Track result is not negated into a rejection" % where)
+
+
 def norm(e):
     return re.sub(r"\s+", "", e)
 
@@ -123,9 +147,10 @@ def norm(e):
 IDENT = re.compile(r"[A-Za-z_][A-Za-z0-9_]*(?:\.[A-Za-z_][A-Za-z0-9_]*)*")
 
 
-def resolve(expr, pkg_srcs, depth=0):
+def resolve(expr, pkg_srcs, depth=0, keep_prefix=False):
     """Rewrite a duration expression found in package `pkg_srcs` so that it compiles inside
-    package security: security.X -> X, time.X kept, local constants expanded."""
+    package security: security.X -> X, time.X kept, local constants expanded. With keep_prefix
+    the security. qualifier stays (for packages that import it under that name)."""
     if depth > 6:
         die("constant resolution too deep for " + expr)
 
@@ -137,7 +162,7 @@ def resolve(expr, pkg_srcs, depth=0):
             rest = tok[len("security."):]
             if "." in rest:
                 die("unsupported selector in duration expression: " + tok)
-            return rest
+            return tok if keep_prefix else rest
         if tok.startswith("time."):
             return tok
         if "." in tok:
@@ -146,16 +171,19 @@ def resolve(expr, pkg_srcs, depth=0):
         for s in pkg_srcs:
             mm = re.search(r"^\s*(?:const\s+)?%s(?:\s+[\w.]+)?\s*=\s*(.+?)\s*$" % re.escape(tok), s, re.M)
             if mm:
-                return "(" + resolve(mm.group(1), pkg_srcs, depth + 1) + ")"
+                return "(" + resolve(mm.group(1), pkg_srcs, depth + 1, keep_prefix) + ")"
         die("cannot resolve identifier %r in duration expression %r" % (tok, expr))
 
     return IDENT.sub(sub, expr)
 
 
 def main():
-    if len(sys.argv) != 3:
-        die("usage: c26_pairs.py <repo> <outdir>")
-    repo, outdir = sys.argv[1], sys.argv[2]
+    global STRICT
+    flags, rest = [x for x in sys.argv[1:] if x.startswith("--")], [x for x in sys.argv[1:] if not x.startswith("--")]
+    if len(rest) != 2 or any(f != "--wiring-only" for f in flags):
+        die("usage: c26_pairs.py [--wiring-only] <repo> <outdir>")
+    STRICT = "--wiring-only" not in flags
+    repo, outdir = rest
     os.makedirs(outdir, exist_ok=True)
 
     def pkg_sources(rel_dir):
@@ -172,12 +200,15 @@ def main():
         rel = os.path.relpath(p, repo)
         if p.endswith("_test.go") or rel.startswith("internal/cluster/security/") or "/testdata/" in rel:
             continue
-        s = strip_comments(open(p).read())
+        raw = open(p).read()
+        if "NewNonceCache(" not in raw and ".Track(" not in raw:
+            continue
+        s = strip_comments(raw)
         n_new += len(re.findall(r"\bNewNonceCache\(", s))
         n_track += len(re.findall(r"(?:nonceCache|replay|guard|Replay)\.Track\(", s))
     if n_new != 3:
         die("expected 3 NewNonceCache( construction sites outside internal/cluster/security, found %d" % n_new)
-    if n_track != 3:
+    if STRICT and n_track != 3:
         die("expected 3 nonce Track( call sites outside internal/cluster/security, found %d" % n_track)
 
     sites = []
@@ -201,29 +232,13 @@ def main():
     st, a, end = one_call(coord, "security.ValidateReplicateSyncHMAC", "coordinator.go")
     if len(a) != 8:
         die("ValidateReplicateSyncHMAC arity changed")
-    tr = [c for c in find_calls(coord, "c.nonceCache.Track") if c[0] > end]
-    if not tr:
-        die("no c.nonceCache.Track( after ValidateReplicateSyncHMAC in coordinator.go")
-    tst, targs, _ = tr[0]
-    enclosing_func_ok(coord, st, tst, "replicate-sync")
-    if len(targs) != 2 or norm(targs[0]) != norm(a[2]) or norm(targs[1]) != norm(a[1]):
-        die("replicate-sync: Track(%s) is not keyed by the MAC-bound (readerID=%s, nonce=%s)" % (", ".join(targs), a[2], a[1]))
-    if not re.search(r"!\s*c\.nonceCache\.Track\(", coord[tst - 4:tst + 20]):
-        die("replicate-sync: Track result is not negated into a rejection")
+    check_track(coord, "c.nonceCache.Track", st, end, a, "replicate-sync")
     sites.append(("replicate-sync", "coordinator", "internal/cluster/coordinator.go", resolve(a[7], cluster_srcs), coord_ttl, a[7], coord_ttl_raw))
 
     st, a, end = one_call(fwd, "security.ValidateForwardHMAC", "forward_apply.go")
     if len(a) != 8:
         die("ValidateForwardHMAC arity changed")
-    tr = [c for c in find_calls(fwd, "c.nonceCache.Track") if c[0] > end]
-    if not tr:
-        die("no c.nonceCache.Track( after ValidateForwardHMAC in forward_apply.go")
-    tst, targs, _ = tr[0]
-    enclosing_func_ok(fwd, st, tst, "forward-apply")
-    if len(targs) != 2 or norm(targs[0]) != norm(a[2]) or norm(targs[1]) != norm(a[1]):
-        die("forward-apply: Track(%s) is not keyed by the MAC-bound (nodeID=%s, nonce=%s)" % (", ".join(targs), a[2], a[1]))
-    if not re.search(r"!\s*c\.nonceCache\.Track\(", fwd[tst - 4:tst + 20]):
-        die("forward-apply: Track result is not negated into a rejection")
+    check_track(fwd, "c.nonceCache.Track", st, end, a, "forward-apply")
     sites.append(("forward-apply", "coordinator", "internal/cluster/forward_apply.go", resolve(a[7], cluster_srcs), coord_ttl, a[7], coord_ttl_raw))
 
     # ---- cmd/arc/main.go sites
@@ -255,15 +270,9 @@ def main():
     st, a, end = one_call(ci, "security.ValidateCacheInvalidateHMAC", "cache_invalidate.go")
     if len(a) != 7 or norm(a[6]) != "h.tolerance":
         die("cache-invalidate: validator is not called with h.tolerance")
-    tr = [c for c in find_calls(ci, "h.nonceCache.Track") if c[0] > end]
-    if not tr:
-        die("no h.nonceCache.Track( after ValidateCacheInvalidateHMAC")
-    tst, targs, _ = tr[0]
-    enclosing_func_ok(ci, st, tst, "cache-invalidate")
-    if len(targs) != 2 or norm(targs[0]) != norm(a[2]) or norm(targs[1]) != norm(a[1]):
-        die("cache-invalidate: Track(%s) is not keyed by the MAC-bound (nodeID=%s, nonce=%s)" % (", ".join(targs), a[2], a[1]))
-    if not re.search(r"!\s*h\.nonceCache\.Track\(", ci[tst - 4:tst + 20]):
-        die("cache-invalidate: Track result is not negated into a rejection")
+    check_track(ci, "h.nonceCache.Track", st, end, a, "cache-invalidate")
+    api_ci_ttl = resolve(ci_ttl_raw, main_srcs, keep_prefix=True)
+    api_ci_tol = resolve(ci_tol_raw, main_srcs, keep_prefix=True)
     sites.append(("cache-invalidate", "cache-invalidate", "cmd/arc/main.go + internal/api/cache_invalidate.go",
                   resolve(ci_tol_raw, main_srcs), resolve(ci_ttl_raw, main_srcs), ci_tol_raw, ci_ttl_raw))
 
@@ -280,6 +289,8 @@ def main():
     es_ttl_raw = targs2[0]
     if not re.search(r"replay:\s*cfg\.Replay,", es):
         die("edge-sync: handler no longer stores cfg.Replay verbatim")
+    api_es_ttl = resolve(es_ttl_raw, main_srcs, keep_prefix=True)
+    api_es = []
     for fn, typ, nargs in (("security.ValidateSyncFileHMACWithReplay", "sync-file", 10),
                            ("security.ValidateSyncReconcileHMACWithReplay", "sync-reconcile", 9)):
         _, a, _ = one_call(es, fn, "edgesync.go")
@@ -287,6 +298,7 @@ def main():
             die("%s: not called with h.replay as the guard / arity changed" % typ)
         sites.append((typ, "edge-sync", "cmd/arc/main.go + internal/api/edgesync.go",
                       resolve(a[-1], api_srcs), resolve(es_ttl_raw, main_srcs), a[-1], es_ttl_raw))
+        api_es.append((typ, resolve(a[-1], api_srcs, keep_prefix=True), a[-1]))
 
     # ---- emit
     dst = os.path.join(outdir, "c26_sites_gen.go")
@@ -302,14 +314,44 @@ def main():
         f.write("}\n")
     print("OVERLAY internal/cluster/security/zz_c26_sites_verif.go " + dst)
 
-    # constructor copy for the handler-level part (package cluster): the expression is copied verbatim
+    # handler-level part (package cluster): constructor copy + the coordinator's sites, with the
+    # expressions copied verbatim (they are already valid inside package cluster)
     dst2 = os.path.join(outdir, "c26_cluster_gen.go")
     with open(dst2, "w") as f:
-        f.write("//go:build verif\n\n// Code generated by /verif/overlaygen/c26_pairs.py from internal/cluster/coordinator.go; DO NOT EDIT.\n\n")
-        f.write("package cluster\n\nimport \"github.com/basekick-labs/arc/internal/cluster/security\"\n\n")
+        f.write("//go:build verif\n\n// Code generated by /verif/overlaygen/c26_pairs.py from internal/cluster/coordinator.go and forward_apply.go; DO NOT EDIT.\n\n")
+        f.write("package cluster\n\nimport (\n\t\"time\"\n\n\t\"github.com/basekick-labs/arc/internal/cluster/security\"\n)\n\n")
         f.write("// verifC26NewCoordinatorNonceCache builds the nonce cache exactly as Coordinator.Start does.\n")
-        f.write("func verifC26NewCoordinatorNonceCache() *security.NonceCache {\n\treturn security.NewNonceCache(%s)\n}\n" % coord_ttl_raw)
+        f.write("func verifC26NewCoordinatorNonceCache() *security.NonceCache {\n\treturn security.NewNonceCache(%s)\n}\n\n" % coord_ttl_raw)
+        f.write("type verifC26Site struct {\n\tType, Cache, Origin string\n\tTolerance, TTL   time.Duration\n\tTolExpr, TTLExpr string\n}\n\n")
+        f.write("var verifC26ClusterSites = []verifC26Site{\n")
+        for typ, cache, origin, tol, ttl, tol_raw, ttl_raw in sites:
+            if cache != "coordinator":
+                continue
+            f.write("\t{%s, %s, %s, %s, %s, %s, %s},\n" % (gq(typ), gq(cache), gq(origin), tol_raw, ttl_raw, gq(tol_raw), gq(ttl_raw)))
+        f.write("}\n")
     print("OVERLAY internal/cluster/zz_c26_gen_verif.go " + dst2)
+
+
+    # handler-level part (package api): the caches and tolerance cmd/arc/main.go hands to the
+    # HTTP handlers, resolved into package api's namespace
+    dst3 = os.path.join(outdir, "c26_api_gen.go")
+    with open(dst3, "w") as f:
+        f.write("//go:build verif\n\n// Code generated by /verif/overlaygen/c26_pairs.py from cmd/arc/main.go and internal/api; DO NOT EDIT.\n\n")
+        f.write("package api\n\nimport (\n\t\"time\"\n\n\t\"github.com/basekick-labs/arc/internal/cluster/security\"\n)\n\n")
+        f.write("// as cmd/arc/main.go wires api.NewCacheInvalidateHandler\n")
+        f.write("func verifC26NewCacheInvalidateNonceCache() *security.NonceCache {\n\treturn security.NewNonceCache(%s)\n}\n\n" % api_ci_ttl)
+        f.write("var verifC26CacheInvalidateTolerance time.Duration = %s\n\n" % api_ci_tol)
+        f.write("// as cmd/arc/main.go wires api.EdgeSyncHandlerConfig.Replay\n")
+        f.write("func verifC26NewEdgeSyncReplay() *security.NonceCache {\n\treturn security.NewNonceCache(%s)\n}\n\n" % api_es_ttl)
+        f.write("type verifC26Site struct {\n\tType, Cache, Origin string\n\tTolerance, TTL   time.Duration\n\tTolExpr, TTLExpr string\n}\n\n")
+        f.write("var verifC26APISites = []verifC26Site{\n")
+        f.write("\t{%s, %s, %s, %s, %s, %s, %s},\n" % (gq("cache-invalidate"), gq("cache-invalidate"), gq("cmd/arc/main.go + internal/api/cache_invalidate.go"),
+                                                        api_ci_tol, api_ci_ttl, gq(ci_tol_raw), gq(ci_ttl_raw)))
+        for typ, tol, tol_raw in api_es:
+            f.write("\t{%s, %s, %s, %s, %s, %s, %s},\n" % (gq(typ), gq("edge-sync"), gq("cmd/arc/main.go + internal/api/edgesync.go"),
+                                                            tol, api_es_ttl, gq(tol_raw), gq(es_ttl_raw)))
+        f.write("}\n")
+    print("OVERLAY internal/api/zz_c26_gen_verif.go " + dst3)
 
 
 def gq(s):
